@@ -1,6 +1,7 @@
 import GitSizer.Driver.Common
 import GitSizer.Model.Parsers
 import GitSizer.Spec.ObjGrammar
+import GitSizer.Model.OidJson
 /-! Engine `parsers`: the byte-level parsers against their models; structured cases are judged
     against the grammar (lossless, exact), every case against totality (no panic, no loop). -/
 namespace GitSizer.Driver
@@ -20,7 +21,7 @@ def resFields {α} (r : Res α) (f : α → List String) : List String :=
   | .panic _ => ["panic"]
 
 /-- JSON string token of an OID: quote, 40 lowercase hex digits, quote -/
-def oidJson (o : Bytes) : Bytes := [34] ++ Spec.hexEncode o ++ [34]
+
 
 def parsersModel (kind : String) (data : Bytes) : Option (List String) :=
   match kind with
